@@ -8,7 +8,7 @@ VERIF = os.path.dirname(os.path.dirname(os.path.abspath(__file__)))
 SETUP = ("cd /verif/harness && cp /repo/go.sum . && GOTOOLCHAIN=local GOFLAGS=-mod=mod GOPROXY=off GOSUMDB=off "
          "go1.26.8 build -tags verif -o /dev/null ./ && cd /verif/specs && for f in *.tla; do tla-sany $f >/dev/null || exit 1; done")
 
-HOOK_COMMITS = ["6a98493"]
+HOOK_COMMITS = ["6a98493", "56af79a", "d192d5e", "0a4b608"]
 
 # property -> dict(level, text, note, technique, design_ref)
 CHECKS = {
@@ -25,32 +25,52 @@ CHECKS = {
         design_ref="DESIGN.md §3.7, §4 C20"),
 }
 
-_IF_NOTE = ("Trusted: TLC; testing/synctest fake clock; the export shim (client/verif_hooks.go) and the projection of the real "
-            "handler; bounds N<=3 (all histories to depth 5/6) and N<=4 (random walks).")
+_IF_NOTE = ("Trusted: TLC; testing/synctest fake clock; the export shim, gates and trace points of client/verif_hooks.go and the "
+            "projection of the real handler; bounds: N<=3 (all sequential histories to depth 5/6), N<=4 (random walks), thread programs of "
+            "2-4 goroutines with 1-4 operations each (all interleavings at gate granularity), free-running rounds bounded by count.")
+_LAYERS = (" Four layers, each with an explicit TLA+ spec checked by TLC and bound to the code: (1) sequential: InFlightSeq.tla (code-shaped, one "
+           "action per API call; invariants and action properties; refinement to the property-level InFlightAbs.tla checked by TLC) - every "
+           "history up to depth 5 (quick) / 6 (thorough) and random walks executed on the real handler, projections compared, differing runs "
+           "judged by TLC against InFlightAbs; (2) concurrent, forced schedules: InFlightConc.tla (one process per goroutine, one step per "
+           "stretch of client/inflight.go between two gate points) model-checked for every interleaving of small thread programs, its "
+           "transition graph walked and every walk forced onto real goroutines through client.VerifGate, state compared after every step; "
+           "the call/return histories of those executions validated against InFlightAbs by InFlightLin.tla (linearizability with the "
+           "recorded results and the final observation); (3) free-running: senders and the receive loop unsynchronised on the real handler; "
+           "histories validated by InFlightLin.tla, trace points emitted under the handler's lock validated by InFlightHook.tla; "
+           "(4) connection level: Conn.tla sessions on real connections.")
 CHECKS["C09"] = dict(
     level="model_checking",
-    text="InFlightSeq.tla (code-shaped, one action per API call) is model-checked exhaustively for small N with the C09 invariants "
-         "(Unique, InRange, Conserve, Bounded) and action properties (RefuseWhenFull, AcceptWhenRoom), and TLC checks that it refines "
-         "the property-level InFlightAbs.tla. Every history of {send managed, send explicit, deliver final/non-final/unknown, receive, "
-         "close, tick} up to depth 5 (quick) / 6 (thorough) and random walks for larger N are executed on the real handler; every "
-         "step's projection is compared with the spec state and differing runs are judged by TLC against InFlightAbs.",
-    note=_IF_NOTE, technique="TLA+ model checking + exhaustive bounded-history replay + TLC trace validation",
-    design_ref="DESIGN.md §3.5, §4 C09")
+    text="Stream-id clauses: Unique / InRange / Conserve / Bounded / RefuseWhenFull / AcceptWhenRoom (InFlightSeq), UniqueAccepted / Bounded / "
+         "NoOrphan / Conserved / RecycledWhenSeen (InFlightConc, every interleaving), AcceptManaged / ASendExplicit / pool conservation "
+         "(InFlightAbs: the acceptance criterion for every recorded trace and history), table size and id freshness at every registration "
+         "(InFlightHook)." + _LAYERS,
+    note=_IF_NOTE, technique="TLA+ model checking (TLC) + exhaustive bounded-history and forced-schedule replay + TLC trace validation (sequential, linearizability, lock-level)",
+    design_ref="DESIGN.md §0.4, §3.5, §4 C09")
 CHECKS["C10"] = dict(
     level="model_checking",
-    text="Same specification and pipeline as C09, for the routing clauses: invariants Ordered, Exclusive and action properties "
-         "UnknownNoEffect, OnlyTarget, CompleteOnLast of InFlightSeq.tla; in InFlightAbs a response may only be appended to the request "
-         "registered under its id (or dropped if that request is done); frames are numbered and AppReceive must return the head. "
-         "Replayed on the real handler for every bounded history; rejected traces are violations.",
-    note=_IF_NOTE, technique="TLA+ model checking + exhaustive bounded-history replay + TLC trace validation",
-    design_ref="DESIGN.md §3.5, §4 C10")
+    text="Routing clauses: Ordered / Exclusive / UnknownNoEffect / OnlyTarget / CompleteOnLast (InFlightSeq), RoutedById / OnceOnly / Delivered "
+         "(InFlightConc, every interleaving), ADeliver / AReceive (InFlightAbs: a frame goes to the request registered under its id, comes out "
+         "in arrival order, once), and at the connection level EventsInOrder / OnlyOwnResponses / AllArrive (Conn.tla with server-pushed events, "
+         "responses for ids nobody carries and a refused duplicate send; library client against a raw server and against the library server, "
+         "every version and compression)." + _LAYERS,
+    note=_IF_NOTE, technique="TLA+ model checking (TLC) + exhaustive bounded-history, forced-schedule and session replay + TLC trace validation",
+    design_ref="DESIGN.md §0.4, §3.5, §4 C10")
 CHECKS["C16"] = dict(
     level="model_checking",
-    text="Handler-level part: close and timeout steps of InFlightSeq.tla/InFlightAbs.tla (CloseCompletes, DoneConsistent, "
-         "TimeoutOnlyAfterSilence; ATick makes exactly the requests silent for the whole timeout fail) replayed on the real handler under "
-         "a fake clock; panics of the library and goroutines surviving handler close (confirmed 3/3) are violations.",
-    note=_IF_NOTE, technique="TLA+ model checking + exhaustive bounded-history replay under synctest + TLC trace validation",
-    design_ref="DESIGN.md §3.5, §4 C16")
+    text="Termination clauses at five levels: handler (CloseCompletes, DoneConsistent, TimeoutOnlyAfterSilence in InFlightSeq under a fake "
+         "clock; ClosedCompletes / NoOrphan in InFlightConc for close racing senders and the receive loop; AClose / ATick in InFlightAbs); "
+         "connection sessions (Conn.tla Fault action: close-client, close-server, context cancel, loss of the peer after every prefix of "
+         "every session, on three rigs, transports whose Close fails included: pending requests completed with an error, blocked receivers "
+         "return, later sends refused, Close returns twice, handshake calls return, no goroutine survives); the windows narrower than a step "
+         "(ConnShutdown.tla: closed flag, channel fields, channels, loops - NoPanic, NoStuckLoop, LaterSendsRefused, CompletedAtClose, Close "
+         "terminates under fairness; thousands of real client and server connections closed under free-running senders, receivers, events "
+         "and millisecond read timeouts; trace points validated by ConnShutdownTrace.tla); the server (ServerLife.tla: Start that fails, "
+         "Accept / AcceptAny, Accept for a client that never connects, peers going away, Close - sessions replayed on a real CqlServer over "
+         "loopback TCP, and servers closed while their peers drop). Every as-found defect is kept as a negative-control configuration that "
+         "TLC must still refute." + _LAYERS,
+    note=_IF_NOTE + " Loopback TCP on ephemeral ports for the server level.",
+    technique="TLA+ model checking (TLC, incl. liveness of Close) + fault injection at every step of every session on real connections + free-running stress with TLC trace validation",
+    design_ref="DESIGN.md §0.4, §3.5, §4 C16")
 
 CHECKS["C19"] = dict(
     level="exploration",
@@ -206,7 +226,10 @@ CHECKS["C15"] = dict(
          "ends agree on the framing, everything sent arrives) on every reachable state and prints every finished session. Each session is "
          "replayed on real connections over net.Pipe under synctest for every version, compression and authentication setting on three "
          "rigs: library-library (wire tapped and parsed by an independent reader), library client against a raw peer, raw peer against "
-         "the library server; every frame delivered is compared with the frame sent.",
+         "the library server; every frame delivered is compared with the frame sent. A raw peer also splits every envelope (two "
+         "reassemblies per connection) and envelopes that would fit a segment, cutting inside the 9-byte envelope header, at its end, one "
+         "byte before the end of the envelope, with a full first segment; callers set the compression flag on their frames; REGISTER / "
+         "READY exercises the one message that is unframed during the handshake and framed afterwards.",
     note="Trusted: the raw peer (harness/conn_test.go, refwire re-anchored to TLC by C06) and the frame codec it uses for envelope bytes; "
          "net.Pipe + synctest instead of TCP. Sessions are bounded (2 requests quick, 3 thorough).",
     technique="TLA+ model checking of the connection protocol + replay of every finished session on real connections",
